@@ -296,15 +296,22 @@ def two_writer_world(base: str, cfg: dict):
     def body(i: int):
         def fn() -> None:
             writer = AtomicWriter(dests[i], is_bytes=True)
-            if cfg.get('reuse') == i:
-                # the same writer object used for two complete cycles while the other writer is active
+            f = None
+            try:
+                if cfg.get('reuse') == i:
+                    # the same writer object used for two complete cycles while the other writer is active
+                    with writer as f:
+                        f.write(b'FIRST-CYCLE-OF-' + str(i).encode())
                 with writer as f:
-                    f.write(b'FIRST-CYCLE-OF-' + str(i).encode())
-            with writer as f:
-                for j in range(cfg['writes']):
-                    f.write(news[i][j * 1000:(j + 1) * 1000])
-                if cfg.get('fail') == i:
-                    raise BodyError('writer fails')
+                    for j in range(cfg['writes']):
+                        f.write(news[i][j * 1000:(j + 1) * 1000])
+                    if cfg.get('fail') == i:
+                        raise BodyError('writer fails')
+            finally:
+                # the moment the finished writer object is dropped is part of the schedule, not of the garbage collector:
+                # release it here, inside this thread's turn (a traceback would otherwise keep it alive into the next execution)
+                del f
+                del writer
         return fn
 
     def set_actor(name: str) -> None:
